@@ -1032,6 +1032,7 @@ class LogixDriver(CIPDriver):
                 self._cfg["use_instance_ids"],
             )
 
+            request.build_message()
             return_size = _tag_return_size(parsed_tag) + len(request.message)
             if return_size > self.connection_size:
                 request = ReadTagFragmentedRequestPacket.from_request(self._sequence, request)
